@@ -370,6 +370,12 @@ func RunScenario(sc *SmtpScenario) (run *SmtpRun, msgs []*mail.Msg) {
 			wmsgs = append(wmsgs, buildSmtpMsg(100+i, sm))
 		}
 		if sc.RetryOfFailed {
+			// (a scripted positive reply at an end-of-data position would deliver after all)
+			for pos, a := range sc.Warmup.Script {
+				if a.Kind == "ok" || (a.Kind == "reply" && a.Code < 400) {
+					delete(srv.Script, pos)
+				}
+			}
 			// the first attempt delivers nothing: the server answers every end-of-data with a temporary refusal (the
 			// classic reason for a retry); what the retry delivers is delivered by the retry
 			srv.Dynamic = func(pos int, verb, line string) (SrvAction, bool) {
